@@ -15,8 +15,8 @@ git apply -R $dest/patch.diff || { echo "cannot revert"; exit 2; }
 cargo test --offline --lib seed_demo > $dest/demo_without.txt 2>&1; r0=$?
 echo "demo without change rc=$r0 (must be 0)"
 unset CARGO_TARGET_DIR
-cd /repo && git apply $dest/patch.diff || { echo "patch does not apply to /repo"; exit 2; }
-cd /verif && bin/check $prop --tier quick > $dest/check_with.txt 2>&1; rc=$?
-git -C /repo checkout -- .
+cd ${SEED_REPO:-/repo} && git apply $dest/patch.diff || { echo "patch does not apply to /repo"; exit 2; }
+cd ${SEED_VERIF:-/verif} && bin/check $prop --tier quick > $dest/check_with.txt 2>&1; rc=$?
+git -C ${SEED_REPO:-/repo} checkout -- .
 echo "check rc=$rc"; grep -m3 "VIOLATION\|TOOL-ERROR" $dest/check_with.txt; tail -6 $dest/check_with.txt | grep -v VIOLATION
 echo "{\"name\": \"$name\", \"property\": \"$prop\", \"demo_without_rc\": $r0, \"demo_with_rc\": $r1, \"suite_with_rc\": $r2, \"check_rc\": $rc}" > $dest/result.json
